@@ -3,7 +3,8 @@
    types; nat, positive, N, Z stay the extracted inductive types. *)
 From Coq Require Import Extraction ExtrOcamlBasic.
 From PV Require Import Base MachineInt VarintParams GenArith GenLoops Varint Utf8 DataModel Ser De Fixint
-  Cobs Crc SerFlavors DeFlavors Accumulator WireFormat.
+  Cobs Crc SerFlavors DeFlavors Accumulator WireFormat
+  Schema SchemaDecl SchemaSer SchemaConv SchemaOps Key KeyOps KeySpec SchemaFmt FmtOps.
 Extraction Language OCaml.
 Extraction "../runner/model.ml"
   le_bytes of_le_bytes
@@ -22,4 +23,5 @@ Extraction "../runner/model.ml"
   to_slice_crc to_vec_crc to_allocvec_crc
   to_slice_crc_cobs to_vec_crc_cobs to_allocvec_crc_cobs to_recorder
   take_from_bytes_ptr from_io take_from_bytes_crc from_bytes_cobs take_from_bytes_cobs
-  acc_new feed drive_chunk.
+  acc_new feed drive_chunk
+  B O conv schema_de schema_ok schema_wf depth key_const key_owned spec_key stream pseudocode pseudocode_nested used_types.
